@@ -179,7 +179,7 @@ theorem matchElem_flatten (rx : RxEngine) (t : Tm) (hwf : t.wf = true) (elem roo
   unfold matchGeneral
   have hr := resolve_flatten elem root t hwf []
   simp only [List.append_nil, resolve] at hr
-  rw [hr, matchResolved_any Dev.fixed rfl rx _ (rflat_ne_nil elem root t hwf), prod_rflat elem root t hwf,
+  rw [hr, matchResolved_any Dev.fixed rfl rfl rx _ (rflat_ne_nil elem root t hwf), prod_rflat elem root t hwf,
     List.any_map]
   congr 2
   funext c
